@@ -4,6 +4,11 @@ Geo5 == (1..5) \X (1..5)
 Geo3 == (1..3) \X (1..3)
 Geo1 == {<<1, 1>>}
 Geo2x1 == {<<2, 1>>}
+\* images large enough for a table-full LZW clear (48x40 RGB = 5,760 noise-like bytes) and RunLength runs above 128 (151 wide)
+GeoLarge == {<<48, 40>>, <<151, 13>>, <<66, 35>>}
+GeoLargeQuick == {<<48, 40>>, <<151, 13>>}
+KindsLarge == {"gray", "rgb"}
+KindRgb == {"rgb"}
 KindsBmp == {"bw", "gray", "rgb"}
 KindsAll == {"bw", "gray", "rgb", "cmyk"}
 KindGray == {"gray"}
